@@ -99,6 +99,11 @@ def calls_after_loss(ctx):
             if rule == 'C08.D2' and slot in LOST_SLOTS:
                 ctx.ob('C09.D3', where, slot, ok, msg, detail, nontrivial,
                        loc)
+            if rule == 'C08.D3' and where.endswith('.connectionLost') and \
+                    slot.startswith('fire=>timer-cancelled'):
+                ctx.ob('C09.D3', where, slot, ok, '[a lost connection fails '
+                       'every outstanding call and cancels its timer] ' + msg,
+                       detail, nontrivial, loc)
             if rule == 'C08.D3' and slot in TABLE_SLOTS:
                 ctx.ob('C09.D3', where, slot, ok, '[connectionLost cancels '
                        'every timer it finds in the table] ' + msg, detail,
@@ -596,6 +601,13 @@ def unregistering_during_notification(ctx):
                'later fire TimeOut' % (attr, cancel.qualname))
 
 
+def _from_pending(t):
+    """t is (a component of) what a pop/get on the pending table gave"""
+    return contains(t, lambda x: kind(x) == 'call' and
+                    kind(x[2]) == 'attr' and x[2][2] in ('pop', 'get') and
+                    kind(x[2][1]) == 'attr' and x[2][1][2] == '_pendingCalls')
+
+
 def loss_sequence(ctx):
     prog = ctx.prog
     selft = ('param', 'self')
@@ -612,7 +624,7 @@ def loss_sequence(ctx):
             ctx.ob('C09.D3', cl.qualname, 'no-raise', False,
                    'connectionLost raises on the established path')
             continue
-        cb_loop = pend_loop = False
+        cb_loop = pend_loop = popped_all = False
         for ev in p.trace:
             if ev[0] != 'loop':
                 continue
@@ -625,12 +637,35 @@ def loss_sequence(ctx):
             if contains(ev[3], lambda x: kind(x) == 'attr' and
                         x[2] == '_pendingCalls'):
                 oks = []
+                pops = []
                 for bp in ev[4]:
                     calls = bp.calls()
                     eb = [c for c in calls if kind(c[2]) == 'attr' and
                           c[2][2] == 'errback']
-                    oks.append(len(eb) == 1 and eb[0][3] == (reason,))
-                pend_loop = bool(oks) and all(oks)
+                    # a turn that found the entry already gone (the value
+                    # popped / looked up for this key is None or falsy) has
+                    # nobody to fail
+                    absent = not eb and any(
+                        ((kind(c) == 'cmp' and c[1] in ('is', 'is not') and
+                          c[3] == NONE and (c[1] == 'is') == pol and
+                          _from_pending(c[2])) or
+                         (not pol and _from_pending(c)))
+                        for c, pol in bp.cond)
+                    oks.append(absent or (len(eb) == 1 and
+                                          eb[0][3] == (reason,)))
+                    pops.append(any(
+                        kind(c[2]) == 'attr' and c[2][2] == 'pop' and
+                        c[2][1] == ('attr', selft, '_pendingCalls') and
+                        c[3] and contains(c[3][0], lambda x: kind(x) in (
+                            'elem', 'loopvar')) for c in calls))
+                pend_loop = bool(oks) and all(oks) and not all(
+                    not any(kind(c[2]) == 'attr' and c[2][2] == 'errback'
+                            for c in bp.calls()) for bp in ev[4])
+                # every turn of a walk over a SNAPSHOT of the table's keys
+                # pops its key: the table is empty afterwards
+                if pops and all(pops) and kind(ev[3]) == 'call' and \
+                        ev[3][1] in ('list', 'tuple', 'sorted'):
+                    popped_all = True
         # the loss is recorded before any user code runs: a call issued by
         # a disconnect callback or an errback must be failed, not registered
         # in the fresh table where nothing ever fails it
@@ -650,7 +685,8 @@ def loss_sequence(ctx):
                'every pending call must be failed with the loss reason')
         reset = any(e[0] == 'setattr' and e[2] == '_pendingCalls' and
                     kind(e[3]) == 'dict' and not e[3][1] for e in p.trace)
-        ctx.ob('C09.D3', cl.qualname, 'pending-table-reset', reset,
+        ctx.ob('C09.D3', cl.qualname, 'pending-table-reset',
+               reset or popped_all,
                'the pending table must be emptied')
         oh = any(kind(c[2]) in ('attr', 'bound') and
                  str(c[2][2]).endswith('connectionLost') and
@@ -740,6 +776,12 @@ def callout_loops(ctx):
     ctx.extra['positive_control'] = 'c09_live_iteration.py: %d live ' \
         'iteration(s) recognised' % len(hits)
     ctx.extra['callout_loops'] = n
+    # (the expected count of LIVE call-out loops is zero plus the advisory
+    # site; the fixture above is the positive control, so a tree without any
+    # such loop is a pass, not a lost anchor)
+    ctx.ob('C09.D4', 'package', 'callout-loops-scanned', True,
+           '%d loop(s) over a live instance container that call out' % n,
+           nontrivial=False)
 
 
 def _live_container(it):
